@@ -4,6 +4,7 @@ import (
 	"go/token"
 	"go/types"
 	"sort"
+	"strings"
 
 	ssa "xvc/xssa"
 
@@ -287,4 +288,132 @@ func FreshPerIteration(at ssa.Instruction, v ssa.Value) bool {
 	}
 	// the allocation block lies on a path header -> ... -> b within the loop
 	return ab == b || reachTo(b)[ab]
+}
+
+// SelfComparisons: a comparison whose two operands are the same value (`a.X() == a.X()`): it decides nothing - one side
+// was meant to be another object (want/got, old/new).
+type SelfCmp struct {
+	Fn  *ssa.Function
+	Op  *ssa.BinOp
+	Txt string
+}
+
+func SelfComparisons(p *load.Program, inPkg func(string) bool) []SelfCmp {
+	var out []SelfCmp
+	for _, fn := range p.AllFns {
+		if fn.Pkg == nil || (inPkg != nil && !inPkg(fn.Pkg.Pkg.Path())) {
+			continue
+		}
+		for _, b := range fn.Blocks {
+			for _, ins := range b.Instrs {
+				bo, ok := ins.(*ssa.BinOp)
+				if !ok {
+					continue
+				}
+				switch bo.Op {
+				case token.EQL, token.NEQ, token.LSS, token.GTR, token.LEQ, token.GEQ:
+				default:
+					continue
+				}
+				if _, isConst := bo.X.(*ssa.Const); isConst {
+					continue
+				}
+				if !sameSSA(bo.X, bo.Y, 0) {
+					continue
+				}
+				l := Canon(bo.X)
+				// float NaN idiom x != x is legitimate
+				if bt, ok := bo.X.Type().Underlying().(*types.Basic); ok && bt.Info()&types.IsFloat != 0 {
+					continue
+				}
+				out = append(out, SelfCmp{fn, bo, l})
+			}
+		}
+	}
+	return out
+}
+
+// impureCall: the value is the result of a call that is not a plain getter / pure accessor (conservative: any call
+// other than a method whose name starts with Get, or len/cap).
+func impureCall(v ssa.Value) bool {
+	c, ok := v.(*ssa.Call)
+	if !ok {
+		if e, ok := v.(*ssa.Extract); ok {
+			return impureCall(e.Tuple)
+		}
+		return false
+	}
+	if b, ok := c.Call.Value.(*ssa.Builtin); ok {
+		return !(b.Name() == "len" || b.Name() == "cap")
+	}
+	name := ""
+	if c.Call.IsInvoke() {
+		name = c.Call.Method.Name()
+	} else if f := c.Call.StaticCallee(); f != nil {
+		name = f.Name()
+	}
+	return !strings.HasPrefix(name, "Get")
+}
+
+// sameSSA: the two values are provably the same value: the same SSA value, or the same pure construction (field / index
+// selection, conversion, getter call) over the same values. Two separate loads are never identified (a store may lie
+// between them); a load is the same only when it is the same instruction.
+func sameSSA(a, b ssa.Value, depth int) bool {
+	if a == b {
+		_, isConst := a.(*ssa.Const)
+		return !isConst
+	}
+	if depth > 6 {
+		return false
+	}
+	switch x := a.(type) {
+	case *ssa.Call:
+		y, ok := b.(*ssa.Call)
+		if !ok || impureCall(x) || impureCall(y) || len(x.Call.Args) != len(y.Call.Args) {
+			return false
+		}
+		if x.Call.IsInvoke() != y.Call.IsInvoke() {
+			return false
+		}
+		if x.Call.IsInvoke() {
+			if x.Call.Method != y.Call.Method || !sameSSA(x.Call.Value, y.Call.Value, depth+1) {
+				return false
+			}
+		} else {
+			fx, fy := x.Call.StaticCallee(), y.Call.StaticCallee()
+			if fx == nil || fx != fy {
+				if bx, ok := x.Call.Value.(*ssa.Builtin); ok {
+					if by, ok := y.Call.Value.(*ssa.Builtin); !ok || bx.Name() != by.Name() {
+						return false
+					}
+				} else {
+					return false
+				}
+			}
+		}
+		for i := range x.Call.Args {
+			if !sameSSA(x.Call.Args[i], y.Call.Args[i], depth+1) {
+				if cx, ok := x.Call.Args[i].(*ssa.Const); ok {
+					if cy, ok := y.Call.Args[i].(*ssa.Const); ok && cx.Value == cy.Value {
+						continue
+					}
+				}
+				return false
+			}
+		}
+		return true
+	case *ssa.Extract:
+		y, ok := b.(*ssa.Extract)
+		return ok && x.Index == y.Index && x.Tuple == y.Tuple
+	case *ssa.Field:
+		y, ok := b.(*ssa.Field)
+		return ok && x.Field == y.Field && sameSSA(x.X, y.X, depth+1)
+	case *ssa.Convert:
+		y, ok := b.(*ssa.Convert)
+		return ok && types.Identical(x.Type(), y.Type()) && sameSSA(x.X, y.X, depth+1)
+	case *ssa.ChangeType:
+		y, ok := b.(*ssa.ChangeType)
+		return ok && types.Identical(x.Type(), y.Type()) && sameSSA(x.X, y.X, depth+1)
+	}
+	return false
 }
